@@ -10,9 +10,11 @@
   Proved for the state after ANY cycle: every held identity is below the group's count
   (`C05_range_after_cycle`); every placed instance of a group holds an identity and every unplaced
   instance holds none (`C05_settled_after_cycle`, for cycles whose queues list every instance
-  exactly once — which C06 proves of the real queue — and with no lease renewal pending).
+  exactly once — which C06 proves of the real queue; lease renewals may be pending: an instance whose
+  renewal fails is taken off its server for the attempt and put back, and the put-back provably
+  succeeds, `TmVerif/Sched/SettledRenew.lean`).
 -/
-import TmVerif.Sched.Settled3
+import TmVerif.Sched.SettledRenew
 import TmVerif.Sched.Run
 
 namespace TmVerif.Sched
@@ -79,10 +81,20 @@ theorem C05_range_after_cycle (c c' : Cell) (qs : List (List (Nat × Bool))) (ch
   exact idInRange_schedule hc hi.1 h a.id a k g grp hlook hk hg hgrp
 
 /-- **C05 (placed ⇒ holds, unplaced ⇒ holds none).** After any cycle whose queues list every
-    instance exactly once and with no lease renewal pending: every placed instance that belongs to
-    an identity group holds an identity, and an instance that is not placed holds none — so a free
-    identity is available to the first instance in the queue that can use it. -/
+    instance exactly once (from a state satisfying the capacity / affinity invariants `AffAll`, which
+    every reachable state does: C01, C04), lease renewals pending or not: every placed instance that
+    belongs to an identity group holds an identity, and an instance that is not placed holds none — so
+    a free identity is available to the first instance in the queue that can use it. -/
 theorem C05_settled_after_cycle (c c' : Cell) (qs : List (List (Nat × Bool))) (ch : List Nat)
+    (hall : AffAll c)
+    (hnd : (qs.flatten.map (·.1)).Nodup) (hcover : ∀ a ∈ c.apps, a.id ∈ qs.flatten.map (·.1))
+    (h : schedule c qs ch = .ok c') :
+    ∀ a ∈ c'.apps, (a.server.isSome = true → a.hasIdentity = true) ∧
+      (a.server = none → a.group.isSome = true → a.identity = none) :=
+  settled_schedule2 hall hnd hcover h
+
+/-- The earlier form (no renewal pending, capacity invariant only), kept as a corollary-style variant. -/
+theorem C05_settled_after_cycle_norenew (c c' : Cell) (qs : List (List (Nat × Bool))) (ch : List Nat)
     (hc : InvCap c) (hnr : ∀ a ∈ c.apps, a.renew = false)
     (hnd : (qs.flatten.map (·.1)).Nodup) (hcover : ∀ a ∈ c.apps, a.id ∈ qs.flatten.map (·.1))
     (h : schedule c qs ch = .ok c') :
